@@ -244,6 +244,13 @@ def generate(seed: int, run: int, tier: str) -> dict:
             ops.append({"op": "virtual", "vseed": rng.randrange(10**9), "perm": rng.randrange(0, 10**6), "faults": [_fault(rng)] if r < 0.6 else []})
             if rng.random() < 0.5:
                 ops.append({"op": "virtual", "vseed": rng.randrange(10**9), "perm": rng.randrange(0, 10**6), "faults": []})
+            if rng.random() < 0.35:
+                # the same layout under another source root, generated in the same process
+                ops.append({"op": "virtual", "vseed": ops[-1]["vseed"], "perm": rng.randrange(0, 10**6), "faults": [], "top": "simsrc2"})
+            if rng.random() < 0.3:
+                ops.append({"op": "virtual", "vseed": rng.randrange(10**9), "perm": 0, "faults": [], "preimport": True, "top": rng.choice(["simsrc", "simsrc3"])})
+            if rng.random() < 0.3:
+                ops.append({"op": "virtual", "vseed": rng.randrange(10**9), "perm": 0, "faults": [], "bad_role": True})
             if r >= 0.6 and rng.random() < 0.6:
                 # the source is edited and documentation is generated again into the same directory
                 vs = ops[-1]["vseed"]
@@ -683,7 +690,7 @@ def _run_post(fs, op, vios, faults_count, probes) -> dict:
     return info
 
 
-def _virtual_tree(vseed: int, broken: bool = False, edit_seed: int | None = None) -> tuple[dict, set]:
+def _virtual_tree(vseed: int, broken: bool = False, edit_seed: int | None = None, top: str = "simsrc", bad_role: bool = False) -> tuple[dict, set]:
     """A small synthetic documented tree in shapes the real one lacks (nested directory named
     like an excluded one, private files and packages, undocumented modules, directives in both
     orders or alone, several documented members, members without directives, private members with
@@ -694,7 +701,7 @@ def _virtual_tree(vseed: int, broken: bool = False, edit_seed: int | None = None
     of edited paths."""
     import random  # pylint: disable=import-outside-toplevel
     rng = random.Random(vseed)
-    root = "simsrc/vpkg"
+    root = f"{top}/vpkg"
     files: dict[str, str] = {}
     pkg_doc = '"""\nVirtual package {n}\n================\n\nText.\n"""\n'
     syms = ["mass", "time", "length", "force", "speed", "temperature", "acceleration", "energy"]
@@ -754,6 +761,12 @@ def _virtual_tree(vseed: int, broken: bool = False, edit_seed: int | None = None
         cands = sorted(p for p in files if p.endswith(".py") and not p.endswith("__init__.py") and "/core/" not in p and "/_" not in p and "/alpha/drafts/" not in p and not p.startswith(root + "/core"))
         if cands:
             files[rng.choice(cands)] = law_source(999, documented=True, broken=True)
+    if bad_role:
+        # one documented law refers to a constant that does not exist (a typo in a role)
+        cands = sorted(p for p in files if p.endswith(".py") and not p.endswith("__init__.py") and "DOC:first" in files[p] and is_documented(files[p]) and "/core/" not in p and "/_" not in p and "/alpha/drafts/" not in p and not p.startswith(root + "/core"))
+        if cands:
+            pth = cands[0]
+            files[pth] = files[pth].replace("DOC:second:", "See :quantity_notation:`no_such_constant`. DOC:second:", 1)
     edited: set = set()
     if edit_seed is not None:
         er = random.Random(edit_seed)
@@ -774,7 +787,7 @@ def _virtual_tree(vseed: int, broken: bool = False, edit_seed: int | None = None
 _TOCTREE = re.compile(r"\.\. toctree::\n    :maxdepth: 4\n\n+((?:    \S.*\n)*)")
 
 
-def _virtual_content_oracles(files: dict, pages: dict, vios: list) -> int:
+def _virtual_content_oracles(files: dict, pages: dict, vios: list, top: str = "simsrc") -> int:
     """Content oracles for synthetic pages, each through a path independent of the generator:
     (a) every member block shows its own docstring marker and nobody else's, private docstrings
     never appear; (b) every package page lists exactly its documented laws and its non-private
@@ -786,7 +799,7 @@ def _virtual_content_oracles(files: dict, pages: dict, vios: list) -> int:
     n = 0
     for name, text in sorted(pages.items()):
         stem = name[:-4]
-        src_path = "simsrc/" + stem.replace(".", "/")
+        src_path = top + "/" + stem.replace(".", "/")
         if "PRIVATE-DOC" in text:
             vios.append(V("faithful", "virtual-private-docstring", f"synthetic page {name} shows the string literal that follows a private variable").v)
         if src_path + ".py" in files:
@@ -842,7 +855,7 @@ def _virtual_content_oracles(files: dict, pages: dict, vios: list) -> int:
     return n
 
 
-def _virtual_symbol_tables(files: dict, pages: dict, vios: list) -> int:
+def _virtual_symbol_tables(files: dict, pages: dict, vios: list, top: str = "simsrc") -> int:
     """Independent path for synthetic modules: exec the source ourselves (default evaluation,
     fresh namespace, no generator state) and compare every symbol table on the page."""
     from symplyphysics.core.dimensions import print_dimension  # pylint: disable=import-outside-toplevel
@@ -851,7 +864,7 @@ def _virtual_symbol_tables(files: dict, pages: dict, vios: list) -> int:
     n = 0
     for name, text in sorted(pages.items()):
         src_path = name[:-4].replace(".", "/")
-        src = files.get("simsrc/" + src_path + ".py")
+        src = files.get(top + "/" + src_path + ".py")
         if src is None:
             continue
         ns: dict = {}
@@ -873,11 +886,55 @@ def _virtual_symbol_tables(files: dict, pages: dict, vios: list) -> int:
     return n
 
 
+def _bad_role_postprocess(fs, pages: dict, vios: list, probes: dict) -> None:
+    """A page refers to a constant that does not exist: post-processing must fail (loudly), must not
+    destroy the page, and must fail again when it is simply run again."""
+    dbuild = _S["dbuild"]
+    target = [n for n, t in pages.items() if "no_such_constant" in t]
+    if not target:
+        return
+    probes["post-processing with an unknown role name"] = 1
+    before = {n: fs.files.get(os.path.join(OUT, n)) for n in target}
+    outcomes = []
+    for _attempt in range(2):
+        fs.begin(0, [])
+        try:
+            dbuild.process_generated_files(OUT)
+            outcomes.append("ok")
+        except Exception as e:  # pylint: disable=broad-except
+            outcomes.append("raised:" + type(e).__name__)
+    after = {n: fs.files.get(os.path.join(OUT, n)) for n in target}
+    if outcomes[0] == "ok":
+        vios.append(V("crossref", "virtual-unknown-role-accepted", f"post-processing accepted the unknown constant in {target[0]} silently").v)
+    elif outcomes[1] == "ok" or any(not (after[n] or "").strip() for n in target) or any("no_such_constant" not in (after[n] or "") for n in target):
+        vios.append(V("total", "virtual-failed-postprocess-destroys-page", f"post-processing of {target[0]} failed ({outcomes[0]}) as it must, but left the page damaged: a second run gives {outcomes[1]}, page length {len(before[target[0]] or '')} -> {len(after[target[0]] or '')}").v)
+
+
 def _run_virtual(fs, op, vios, faults, probes, aborted):
     build = _S["build"]
     was_pending = aborted["pending"]
     broken = bool(op.get("broken"))
-    files, edited = _virtual_tree(int(op["vseed"]), broken=broken, edit_seed=op.get("edit"))
+    top = op.get("top", "simsrc")
+    vroot = f"{top}/vpkg"
+    files, edited = _virtual_tree(int(op["vseed"]), broken=broken, edit_seed=op.get("edit"), top=top, bad_role=bool(op.get("bad_role")))
+    if op.get("preimport"):
+        # the user has imported these law modules earlier in the process (evaluated, as any import is)
+        import sys as _sys  # pylint: disable=import-outside-toplevel
+        import types  # pylint: disable=import-outside-toplevel
+        for pth, src_ in sorted(files.items()):
+            if not pth.endswith(".py") or "this_name_is_not_defined" in src_:
+                continue
+            dotted = pth[:-3].replace("/", ".")
+            if dotted.endswith(".__init__"):
+                dotted = dotted[:-9]
+            mod_ = types.ModuleType(dotted)
+            mod_.__file__ = pth
+            try:
+                exec(compile(src_, pth, "exec"), mod_.__dict__)  # pylint: disable=exec-used
+            except Exception:  # pylint: disable=broad-except
+                continue
+            _sys.modules[dotted] = mod_
+        faults["synthetic_laws_imported_before"] = faults.get("synthetic_laws_imported_before", 0) + 1
     fs.locale_encoding = op.get("locale", "utf-8")
     if fs.locale_encoding != "utf-8":
         faults["non_utf8_locale"] = faults.get("non_utf8_locale", 0) + 1
@@ -887,7 +944,7 @@ def _run_virtual(fs, op, vios, faults, probes, aborted):
     else:
         faults["regenerate_over_old_output"] = faults.get("regenerate_over_old_output", 0) + 1
         probes["source edited between two generations into the same output"] = int(bool(edited))
-    fs.mount_source(files, "simsrc/vpkg", newer=edited)
+    fs.mount_source(files, vroot, newer=edited)
     fs.begin(int(op.get("perm", 0)), op.get("faults"))
     status = "ok"
     flag_bad_pages = []
@@ -901,7 +958,7 @@ def _run_virtual(fs, op, vios, faults, probes, aborted):
 
     build._process_law = law  # pylint: disable=protected-access
     try:
-        build.generate_laws_docs("simsrc/vpkg", OUT, ["core", "alpha/drafts"], True)
+        build.generate_laws_docs(vroot, OUT, ["core", "alpha/drafts"], True)
     except OSError as e:
         status = f"raised:OSError:{e.errno}"
     except Exception as e:  # pylint: disable=broad-except
@@ -929,7 +986,7 @@ def _run_virtual(fs, op, vios, faults, probes, aborted):
         pref = os.path.normpath(p) + "/"
         return any(q.startswith(pref) for q in files)
 
-    exp = expected_pages("simsrc/vpkg", ["core", "alpha/drafts"], read=vread, listdir=vlist, isdir=visdir)
+    exp = expected_pages(vroot, ["core", "alpha/drafts"], read=vread, listdir=vlist, isdir=visdir)
     faults["virtual_tree"] = faults.get("virtual_tree", 0) + 1
     probes["synthetic documented tree generated"] = 1
     if not fired and not broken:
@@ -951,17 +1008,19 @@ def _run_virtual(fs, op, vios, faults, probes, aborted):
             # after an aborted generation the flag may still be off until the first reset of this
             # generation ran, so pages are judged individually only in a clean process state; the
             # end-of-generation state is always judged (every synthetic law has a reset window)
-            has_window = any(("simsrc/" + n[:-4].replace(".", "/") + ".py") in files for n in pages)
+            has_window = any((top + "/" + n[:-4].replace(".", "/") + ".py") in files for n in pages)
             if (flag_bad_pages and not was_pending) or (not _flag_ok() and (has_window or not was_pending)):
                 vios.append(V("flag", "after-virtual", f"evaluation flag not default after generating a synthetic tree (first bad page: {(flag_bad_pages or ['end'])[0]}; previous generation aborted: {was_pending})").v)
-            n = _virtual_symbol_tables(files, pages, vios)
+            n = _virtual_symbol_tables(files, pages, vios, top)
             probes["synthetic symbol tables compared with an independent exec"] = int(n > 0)
             for n_, text_ in sorted(pages.items()):
-                base_ = "simsrc/" + n_[:-4].replace(".", "/")
+                base_ = top + "/" + n_[:-4].replace(".", "/")
                 src_ = files.get(base_ + ".py", files.get(base_ + "/__init__.py"))
                 if src_ is not None:
                     check_sections(n_, text_, src_, vios, prefix="virtual-")
-            n2 = _virtual_content_oracles(files, pages, vios)
+            n2 = _virtual_content_oracles(files, pages, vios, top)
+            if op.get("bad_role"):
+                _bad_role_postprocess(fs, pages, vios, probes)
             probes["synthetic docstring / contents / rendering oracles"] = int(n2 > 0)
             if aborted["pending"]:
                 probes["successful generation after an aborted one in the same process"] = 1
